@@ -24,6 +24,16 @@ pub trait Elem: Copy + PartialEq + std::fmt::Debug + Send + Sync + 'static {
     fn enc(x: u64, j: u64) -> Self;
     fn dec(self) -> (u64, u64);
     const SIZE: usize;
+    /// raw bit pattern (for bit-exact comparison, NaN payloads included)
+    fn bits(self) -> u64;
+    /// k-th value of a table of extreme / special bit patterns followed by a pseudo-random tail
+    fn special(k: u64) -> Self;
+}
+fn mix(k: u64) -> u64 {
+    let mut z = k.wrapping_mul(0x9E3779B97F4A7C15).wrapping_add(0xD1B54A32D192ED03);
+    z = (z ^ (z >> 30)).wrapping_mul(0xBF58476D1CE4E5B9);
+    z = (z ^ (z >> 27)).wrapping_mul(0x94D049BB133111EB);
+    z ^ (z >> 31)
 }
 const JUNK: u64 = 99; // the model's "value read from outside valid data"
 const SHIFT: u64 = 1 << 12; // blocks of up to 4096 elements
@@ -33,10 +43,15 @@ macro_rules! elem_int {
             fn enc(x: u64, j: u64) -> Self { (x * SHIFT + j) as $t }
             fn dec(self) -> (u64, u64) { ((self as u64) / SHIFT, (self as u64) % SHIFT) }
             const SIZE: usize = size_of::<$t>();
+            fn bits(self) -> u64 { self as u64 }
+            fn special(k: u64) -> Self {
+                const T: [$t; 10] = [0, 1, <$t>::MAX, <$t>::MIN, <$t>::MAX - 1, (<$t>::MAX / 2), (<$t>::MAX / 2) + 1, 2, <$t>::MIN + 1, 100];
+                if k % 3 == 0 { T[((k / 3) % 10) as usize] } else { mix(k) as $t }
+            }
         }
     )*};
 }
-elem_int!(u16, u32, u64, i64);
+elem_int!(u8, u16, u32, u64, i64, i8, i16, i32);
 impl Elem for f64 {
     fn enc(x: u64, j: u64) -> Self {
         (x * SHIFT + j) as f64
@@ -45,6 +60,34 @@ impl Elem for f64 {
         ((self as u64) / SHIFT, (self as u64) % SHIFT)
     }
     const SIZE: usize = 8;
+    fn bits(self) -> u64 {
+        self.to_bits()
+    }
+    fn special(k: u64) -> Self {
+        const T: [u64; 14] = [
+            0, 0x8000_0000_0000_0000, 0x7FF0_0000_0000_0000, 0xFFF0_0000_0000_0000, // +0 -0 +inf -inf
+            0x7FF8_0000_0000_0000, 0x7FF8_0000_0000_0001, 0xFFF8_0000_DEAD_BEEF, 0x7FF0_0000_0000_0001, // quiet / payload / signalling NaNs
+            1, 0x000F_FFFF_FFFF_FFFF, 0x0010_0000_0000_0000, 0x7FEF_FFFF_FFFF_FFFF, // subnormals, min normal, max
+            0x3FF0_0000_0000_0000, 0xBFF0_0000_0000_0001,
+        ];
+        if k % 3 == 0 { f64::from_bits(T[((k / 3) % 14) as usize]) } else { f64::from_bits(mix(k)) }
+    }
+}
+impl Elem for f32 {
+    fn enc(x: u64, j: u64) -> Self {
+        (x * SHIFT + j) as f32
+    }
+    fn dec(self) -> (u64, u64) {
+        ((self as u64) / SHIFT, (self as u64) % SHIFT)
+    }
+    const SIZE: usize = 4;
+    fn bits(self) -> u64 {
+        self.to_bits() as u64
+    }
+    fn special(k: u64) -> Self {
+        const T: [u32; 12] = [0, 0x8000_0000, 0x7F80_0000, 0xFF80_0000, 0x7FC0_0000, 0x7FC0_0001, 0xFFC0_BEEF, 0x7F80_0001, 1, 0x007F_FFFF, 0x0080_0000, 0x7F7F_FFFF];
+        if k % 3 == 0 { f32::from_bits(T[((k / 3) % 12) as usize]) } else { f32::from_bits(mix(k) as u32) }
+    }
 }
 
 type R<T> = vecdb::Result<T>;
@@ -180,6 +223,18 @@ cmp_vk!(LZ4Vec<usize, u32>, u32, true);
 cmp_vk!(LZ4Vec<usize, u64>, u64, true);
 cmp_vk!(ZstdVec<usize, u32>, u32, true);
 cmp_vk!(ZstdVec<usize, u64>, u64, true);
+cmp_vk!(PcoVec<usize, f32>, f32, true);
+cmp_vk!(PcoVec<usize, i64>, i64, true);
+cmp_vk!(PcoVec<usize, i32>, i32, true);
+cmp_vk!(PcoVec<usize, i16>, i16, true);
+cmp_vk!(LZ4Vec<usize, u8>, u8, true);
+cmp_vk!(LZ4Vec<usize, f64>, f64, true);
+cmp_vk!(LZ4Vec<usize, i64>, i64, true);
+cmp_vk!(LZ4Vec<usize, u16>, u16, true);
+cmp_vk!(ZstdVec<usize, u8>, u8, true);
+cmp_vk!(ZstdVec<usize, f64>, f64, true);
+cmp_vk!(ZstdVec<usize, f32>, f32, true);
+cmp_vk!(ZstdVec<usize, i16>, i16, true);
 cmp_vk!(EagerVec<BytesVec<usize, u32>>, u32, false);
 cmp_vk!(EagerVec<PcoVec<usize, u32>>, u32, true);
 
@@ -321,6 +376,7 @@ impl Out {
 }
 
 struct Cfg {
+    special: bool,
     k: u16,
     block: usize,
     check_pages: bool,
@@ -567,6 +623,84 @@ fn note_known(st: &mut Stats, dev: &[String], steps: &[Value], si: usize) {
     }
 }
 
+/// C07 lossless part: the behaviour's chunking (pushes / truncations / writes / re-imports) is kept, the values are
+/// extreme integers and special floating-point bit patterns; contents are compared bit for bit with a shadow list.
+fn run_one_special<V: VK>(steps: &[Value], cfg: &Cfg, st: &mut Stats, bidx: usize, ctr: &mut u64) {
+    let scratch = Scratch::new("vecs");
+    let name = "v";
+    let mut db = Some(Database::open(scratch.path()).expect("open db"));
+    let mut vec: Option<V> = Some(V::open(db.as_ref().unwrap(), name, cfg.k, 1).expect("create vec"));
+    let b = cfg.block;
+    let mut shadow: Vec<u64> = vec![];
+    for (si, step) in steps.iter().enumerate() {
+        let op = step["op"].as_str().unwrap();
+        let args: Vec<u64> = step["args"].as_array().map(|a| a.iter().map(|x| x.as_u64().unwrap()).collect()).unwrap_or_default();
+        *st.ops.entry(op.to_string()).or_default() += 1;
+        st.steps += 1;
+        let r = catch_unwind(AssertUnwindSafe(|| -> R<()> {
+            let vr = vec.as_mut().unwrap();
+            match op {
+                "push" => {
+                    for _ in 0..b {
+                        let v = V::T::special(*ctr);
+                        *ctr += 1;
+                        shadow.push(v.bits());
+                        vr.push(v);
+                    }
+                    Ok(())
+                }
+                "truncate" => {
+                    shadow.truncate(args[0] as usize * b);
+                    vr.truncate(args[0] as usize * b)
+                }
+                "write" => vr.write().map(|_| ()),
+                "reset" => {
+                    shadow.clear();
+                    vr.reset()
+                }
+                "reimport" => {
+                    vr.flush()?;
+                    db.as_ref().unwrap().flush()?;
+                    drop(vec.take());
+                    drop(db.take());
+                    let ndb = Database::open(scratch.path())?;
+                    let nv = V::open(&ndb, name, cfg.k, 1);
+                    db = Some(ndb);
+                    vec = Some(nv?);
+                    Ok(())
+                }
+                _ => Ok(()),
+            }
+        }));
+        let dev_tagged = step["dev"].as_array().map(|d| !d.is_empty()).unwrap_or(false);
+        if dev_tagged {
+            break; // known deviations are judged by the model-value replay
+        }
+        let got = catch_unwind(AssertUnwindSafe(|| vec.as_ref().map(|v| v.view().iter().map(|e| e.map(|x| x.bits())).collect::<Vec<_>>())));
+        let ok = matches!(r, Ok(Ok(()))) && match &got {
+            Ok(Some(g)) => g.len() == shadow.len() && g.iter().zip(shadow.iter()).all(|(a, b)| *a == Some(*b)),
+            _ => false,
+        };
+        if !ok {
+            let first = match &got {
+                Ok(Some(g)) => g.iter().zip(shadow.iter()).position(|(a, b)| *a != Some(*b)).map(|i| format!("index {i}: got {:?} want {:#x}", g[i], shadow[i])).unwrap_or(format!("length {} vs {}", g.len(), shadow.len())),
+                _ => "read panicked".to_string(),
+            };
+            st.violations.push(json!({"behaviour": bidx, "step": si, "op": op, "args": args, "special": true,
+                "what": format!("bit-exact contents differ after {op}: {first}; call result {:?}", r.as_ref().map(|x| x.as_ref().map_err(|e| format!("{e:?}"))).map_err(|_| "panic")),
+                "steps": steps[..=si].iter().map(short).collect::<Vec<_>>()}));
+            break;
+        }
+    }
+    st.behaviours += 1;
+    if steps.len() >= 3 {
+        let key: String = steps.iter().map(|s| short(s).to_string()).collect::<Vec<_>>().join(";");
+        st.nontrivial.insert(fnv(&key));
+    }
+    drop(vec);
+    drop(db);
+}
+
 fn short(s: &Value) -> Value {
     let op = s["op"].as_str().unwrap_or("?");
     let a: Vec<String> = s["args"].as_array().map(|a| a.iter().map(|x| x.to_string()).collect()).unwrap_or_default();
@@ -575,8 +709,13 @@ fn short(s: &Value) -> Value {
 
 fn run_all<V: VK>(lines: &[Vec<Value>], cfg: &Cfg) -> Stats {
     let mut st = Stats::default();
+    let mut ctr = 0u64;
     for (i, steps) in lines.iter().enumerate() {
-        run_one::<V>(steps, cfg, &mut st, i);
+        if cfg.special {
+            run_one_special::<V>(steps, cfg, &mut st, i, &mut ctr);
+        } else {
+            run_one::<V>(steps, cfg, &mut st, i);
+        }
         if st.violations.len() >= 5 {
             break;
         }
@@ -601,8 +740,9 @@ pub fn main(args: &[String]) -> i32 {
         let v: Value = serde_json::from_str(&l).expect("json");
         lines.push(v.as_array().unwrap().clone());
     }
-    let size = match ty { "u16" => 2, "u32" => 4, _ => 8 };
-    let cfg = Cfg { k, block, check_pages: true, per_page_real: 16 * 1024 / size };
+    let size = match ty { "u8" | "i8" => 1, "u16" | "i16" => 2, "u32" | "i32" | "f32" => 4, _ => 8 };
+    let special = f.contains_key("special");
+    let cfg = Cfg { special, k, block, check_pages: true, per_page_real: 16 * 1024 / size };
     let st = match (format, ty) {
         ("bytes", "u32") => run_all::<BytesVec<usize, u32>>(&lines, &cfg),
         ("bytes", "u64") => run_all::<BytesVec<usize, u64>>(&lines, &cfg),
@@ -618,6 +758,18 @@ pub fn main(args: &[String]) -> i32 {
         ("lz4", "u64") => run_all::<LZ4Vec<usize, u64>>(&lines, &cfg),
         ("zstd", "u32") => run_all::<ZstdVec<usize, u32>>(&lines, &cfg),
         ("zstd", "u64") => run_all::<ZstdVec<usize, u64>>(&lines, &cfg),
+        ("pco", "f32") => run_all::<PcoVec<usize, f32>>(&lines, &cfg),
+        ("pco", "i64") => run_all::<PcoVec<usize, i64>>(&lines, &cfg),
+        ("pco", "i32") => run_all::<PcoVec<usize, i32>>(&lines, &cfg),
+        ("pco", "i16") => run_all::<PcoVec<usize, i16>>(&lines, &cfg),
+        ("lz4", "u8") => run_all::<LZ4Vec<usize, u8>>(&lines, &cfg),
+        ("lz4", "f64") => run_all::<LZ4Vec<usize, f64>>(&lines, &cfg),
+        ("lz4", "i64") => run_all::<LZ4Vec<usize, i64>>(&lines, &cfg),
+        ("lz4", "u16") => run_all::<LZ4Vec<usize, u16>>(&lines, &cfg),
+        ("zstd", "u8") => run_all::<ZstdVec<usize, u8>>(&lines, &cfg),
+        ("zstd", "f64") => run_all::<ZstdVec<usize, f64>>(&lines, &cfg),
+        ("zstd", "f32") => run_all::<ZstdVec<usize, f32>>(&lines, &cfg),
+        ("zstd", "i16") => run_all::<ZstdVec<usize, i16>>(&lines, &cfg),
         ("eager_bytes", "u32") => run_all::<EagerVec<BytesVec<usize, u32>>>(&lines, &cfg),
         ("eager_pco", "u32") => run_all::<EagerVec<PcoVec<usize, u32>>>(&lines, &cfg),
         other => {
@@ -626,7 +778,7 @@ pub fn main(args: &[String]) -> i32 {
         }
     };
     let out = json!({
-        "format": format, "type": ty, "k": k, "block": block,
+        "format": format, "type": ty, "k": k, "block": block, "special": special,
         "behaviours": st.behaviours, "steps": st.steps, "distinct_nontrivial": st.nontrivial.len(),
         "ops": st.ops, "cut_permitted": st.cut_permitted,
         "known": st.known.iter().map(|(d, (c, h))| json!({"dev": d, "count": c, "history": h})).collect::<Vec<_>>(),
